@@ -37,6 +37,14 @@ SPEC = {
             "every normal operation (all of the above incl. derived objects and layouts) on a DIFFERENT permutation object, each on a fresh "
             "thread immediately after a repetition of the mis-sized call (request `@after <mis-sized call> @ <request>`: the line is the whole "
             "history of its thread), compared with model (A) and reference (B), both of which ignore the history. "
+            "LONG HISTORIES of Permutation::new on one thread (rejected calls included): (1) self-contained, on a fresh thread per request: "
+            "new(big), then c = 253, 254, 255, 256, 509, 510, 764 (thorough: 19 counts up to 1275) calls cycling through a few small lists "
+            "(one size or mixed sizes; valid, repeated element, out of range), then `new` of a valid permutation reaching beyond the small ones "
+            "and every vector operation on it (request `@after newhist <big> | <c> | <l1> , <l2> ... @ <request>`); (2) sessions: one thread "
+            "answering 254, 255, 256, 510, 511 and two random 200..1200 (thorough: up to 2000) consecutive requests - a few valid ones first, then "
+            "calls from a small pool of same-size lists (mostly rejected early, so most positions stay untouched for hundreds of calls) or of "
+            "smaller mixed sizes with a valid intermediate one now and then, then late valid ones with new and all vector operations - every "
+            "answer compared (request `@seq <session> <k> @ <request>`: the history is the k preceding lines of the session). "
             "Non-trivial = operation on an accepted permutation with inputs of matching size, or an accepted `new`; distinct = distinct request line.",
     "exhaustive": False,
 }
